@@ -29,7 +29,12 @@
 (*                   representation WOULD be converted again: the            *)
 (*                   configurations kept are those where that changes the     *)
 (*                   value or is ill-typed                                   *)
-(* Deviation GeometryMatchedByIdentity (consistent = same id): refuted.      *)
+(*   IdentSamplesPar a Samples object of PARAMETERS is converted with the     *)
+(*                   MODEL's par2fun whatever geometry it carries (default,   *)
+(*                   identity-like, another map)                              *)
+(* Deviations GeometryMatchedByIdentity (consistent = same id) and            *)
+(* SamplesConvertedWithOwnGeometry (collection converted all-at-once with     *)
+(* the geometry stored in the Samples object): refuted.                       *)
 (* Geometries that are NOT equal (other grid / other size) are emitted too:   *)
 (* nothing is asserted for them (gid other_*; the documentation does not say  *)
 (* what happens), the replay records what it sees.                           *)
@@ -39,13 +44,20 @@ EXTENDS ModelGeom
 CONSTANTS IdWide       \* TRUE: all model kinds / range geometries
 
 EqualIds == {"same", "copy", "deepcopy", "twice", "prior", "model_deepcopy"}
+\* a Samples object of PARAMETERS carrying a geometry of the model's parameter dimension that is NOT the model's: none given
+\* (Samples(P): a default geometry), an identity-like one, a mapped one with another map.  forward: "converts the input to function
+\* values (if needed) using the domain geometry OF THE MODEL" - asserted for the representation `samples` (round 8)
+ParOnlyIds == {"default", "other_identity", "other_mapped"}
 OtherIds == {"other_compatible", "other_incompatible"}
 \* ids of (the model's domain object, the object the input carries)
 IdsOf(gid) == CASE gid = "same" -> <<1, 1>>
                 [] gid = "model_deepcopy" -> <<11, 1>>        \* the model was deep-copied, the input carries the original's object
                 [] OTHER -> <<1, 7>>
 \* the geometry RECORD the input carries
-CarriedG(k) == CASE k.gid = "other_compatible"   -> [k.dg EXCEPT !.kind = "other"]
+CarriedG(k) == CASE k.gid = "default"            -> Geo("default1d", k.dg.k, k.dg.k, 1, k.dg.k, "", <<>>)
+                 [] k.gid = "other_identity"     -> Geo("cont1d", k.dg.k, k.dg.k, 1, k.dg.k, "", <<>>)
+                 [] k.gid = "other_mapped"       -> Geo("mapped", k.dg.k, k.dg.k, 1, k.dg.k, "", <<>>)
+                 [] k.gid = "other_compatible"   -> [k.dg EXCEPT !.kind = "other"]
                  [] k.gid = "other_incompatible" -> [k.dg EXCEPT !.kind = "other", !.k = k.dg.k + 1]
                  [] OTHER -> k.dg
 Consistent(k) == IF "GeometryMatchedByIdentity" \in Dev THEN IdsOf(k.gid)[1] = IdsOf(k.gid)[2]
@@ -59,7 +71,9 @@ IdToFun(k, rep, v) ==
     IN CASE rep = "arr_par"         -> Gv                                                    \* typed: funvals = G v; generic: par2fun(v) = G v
          [] rep = "arr_fun"         -> IF Consistent(k) THEN Gv ELSE generic(Gv, TRUE)        \* forward(x): is_par defaults to TRUE
          [] rep = "arr_fun_flagged" -> IF Consistent(k) THEN Gv ELSE generic(Gv, FALSE)
-         [] rep = "samples"         -> Gv
+         \* Samples of parameters: the items are plain columns, converted with the MODEL's par2fun whatever geometry the Samples object carries
+         [] rep = "samples"         -> IF "SamplesConvertedWithOwnGeometry" \in Dev /\ k.gid \in ParOnlyIds
+                                       THEN (IF k.dg.k = k.dg.n THEN P2FV(CarriedG(k), v) ELSE IllTyped) ELSE Gv
          [] rep = "samples_fun"     -> IF Consistent(k) THEN Gv ELSE generic(Gv, FALSE)       \* items are passed on with the samples' own flag
 \* gradient: parameters / function value of wrt (Model._2par, then _2fun)
 IdWrtPar(k, rep, w) == IF rep = "arr_par" THEN w
@@ -77,10 +91,11 @@ Layouts12 == <<"f64c", "int", "f32", "strided", "readonly", "fortran">>
 IdKinds == IF IdWide THEN GenKinds ELSE {"gen_grad", "gen_jac", "lin_dense", "lin_func"}
 IdRng   == IF IdWide THEN {g \in C12Rng(4) : g.kind \in {"cont1d", "mapped", "imgC", "step"}} ELSE {g \in C12Rng(4) : g.kind \in {"cont1d", "mapped"}}
 GidNo(gid) == CASE gid = "same" -> 0 [] gid = "copy" -> 1 [] gid = "deepcopy" -> 2 [] gid = "twice" -> 3 [] gid = "prior" -> 4
-                [] gid = "model_deepcopy" -> 5 [] gid = "other_compatible" -> 6 [] OTHER -> 7
+                [] gid = "model_deepcopy" -> 5 [] gid = "other_compatible" -> 6 [] gid = "default" -> 8 [] gid = "other_identity" -> 9
+                [] gid = "other_mapped" -> 10 [] OTHER -> 7
 IdConfigs == { [part |-> "C12", mk |-> mk, dg |-> dg, rg |-> rg, fi |-> 1, gid |-> gid,
                 lay |-> Layouts12[((GidNo(gid) + dg.k + rg.k + (IF dg.kind = "step" THEN 1 ELSE 0) + (IF mk = "lin_func" THEN 2 ELSE 0)) % 6) + 1]] :
-                 mk \in IdKinds, dg \in C12Dom(6), rg \in IdRng, gid \in (EqualIds \ {"same"}) \cup OtherIds }
+                 mk \in IdKinds, dg \in C12Dom(6), rg \in IdRng, gid \in (EqualIds \ {"same"}) \cup OtherIds \cup ParOnlyIds }
 IdValid(k) == /\ C12Valid([part |-> "C12", mk |-> k.mk, dg |-> k.dg, rg |-> k.rg, fi |-> k.fi])
               /\ (k.gid \in OtherIds => (k.dg.kind \in {"cont1d", "step", "mapped"} /\ k.mk = "lin_dense" /\ k.rg.kind = "cont1d"))
               /\ (IdWide \/ IdSensitive(k) \/ k.dg.kind \in {"cont1d", "imgF"})
@@ -92,7 +107,8 @@ IdentOneInput == c.gid \in EqualIds => \A rep \in IdReps : IdToFun(c, rep, IdV(c
 IdentWrt      == c.gid \in EqualIds => \A rep \in {"arr_par", "arr_fun"} :
                     /\ IdWrtPar(c, rep, IdW(c)) = IdW(c)
                     /\ IdWrtFun(c, rep, IdW(c)) = P2FV(c.dg, IdW(c))
-IdentVisible  == (c.gid \in EqualIds /\ ~IdWide /\ c.dg.kind \notin {"cont1d", "imgF"}) => IdSensitive(c)
+IdentSamplesPar == c.gid \in ParOnlyIds => IdToFun(c, "samples", IdV(c)) = P2FV(c.dg, IdV(c))
+IdentVisible  == (c.gid \in EqualIds \cup ParOnlyIds /\ ~IdWide /\ c.dg.kind \notin {"cont1d", "imgF"}) => IdSensitive(c)
 IdentEmit == Emit => PrintT("@@CASE " \o ToJson([kind |-> "ident", mk |-> c.mk, dg |-> c.dg, rg |-> c.rg, fi |-> c.fi, gid |-> c.gid, lay |-> c.lay,
                                                   sensitive |-> IdSensitive(c)]) \o " @@END")
 =============================================================================
